@@ -29,7 +29,7 @@ impl Solution {
             .ok_or(Error::Interpolation(InterpolationError::NotEnabled))?;
         let (start, end) = dense.t_span().ok_or(Error::Interpolation(InterpolationError::NotEnabled))?;
         // Same slack as the segment lookup, so every reported time can be evaluated
-        let tol = 1e-12;
+        let tol = super::cont::lookup_slack(t);
         let (lo, hi) = (start.min(end) - tol, start.max(end) + tol);
         if t < lo || t > hi {
             return Err(Error::Interpolation(InterpolationError::OutOfRange {
@@ -53,10 +53,10 @@ impl Solution {
             .as_ref()
             .ok_or(Error::Interpolation(InterpolationError::NotEnabled))?;
         let (start, end) = dense.t_span().ok_or(Error::Interpolation(InterpolationError::NotEnabled))?;
-        let tol = 1e-12;
-        let (lo, hi) = (start.min(end) - tol, start.max(end) + tol);
+        let (lo, hi) = (start.min(end), start.max(end));
         for &t in ts {
-            if t < lo || t > hi {
+            let tol = super::cont::lookup_slack(t);
+            if t < lo - tol || t > hi + tol {
                 return Err(Error::Interpolation(InterpolationError::OutOfRange {
                     t,
                     t_start: start,
